@@ -340,6 +340,18 @@ func genC07(r *Rng) *Scenario {
 	for i := 0; i < nItems; i++ {
 		t += r.between(1, 300)
 		if r.chance(0.55) && pi < len(perm) {
+			if r.chance(0.3) && pi+1 < len(perm) {
+				// two (or three) answers in a single read: the reader dispatches them
+				// back to back before any waiter runs
+				hs := []int{perm[pi], perm[pi+1]}
+				pi += 2
+				if r.chance(0.3) && pi < len(perm) {
+					hs = append(hs, perm[pi])
+					pi++
+				}
+				sc.Script = append(sc.Script, Out{Conn: 1, AtUs: t, Kind: "releaseglued", Helds: hs})
+				continue
+			}
 			sc.Script = append(sc.Script, Out{Conn: 1, AtUs: t, Kind: "release", Held: perm[pi]})
 			pi++
 			continue
@@ -356,7 +368,9 @@ func genC07(r *Rng) *Scenario {
 		case 0: // right id, other kind
 			p.Type = types[r.IntN(len(types))]
 			p.ID = v.id
-			own := map[string][]int{"q1": {TPubAck}, "q2": {TPubRec, TPubComp}, "sub": {TSubAck}, "unsub": {TUnsubAck}}
+			// a PUBCOMP carrying a QoS 2 request's own id is allowed at any time: before
+			// its PUBREL it must neither complete nor disturb the request
+			own := map[string][]int{"q1": {TPubAck}, "q2": {TPubRec}, "sub": {TSubAck}, "unsub": {TUnsubAck}}
 			for _, o := range own[v.kind] {
 				if o == p.Type {
 					p.Type = TPubRel // never an answer to a client request
@@ -424,7 +438,7 @@ func (c c11Cell) String() string { return c.call + "/" + c.step + "/" + c.cause 
 func C11Matrix() []c11Cell {
 	var cells []c11Cell
 	calls := []string{"publish1", "publish2", "subscribe", "unsubscribe", "ping"}
-	causes := []string{"cancel", "deadline", "localclose", "peereof", "peerreset", "malformed"}
+	causes := []string{"cancel", "deadline", "localclose", "peereof", "peerreset", "malformed", "disconnect"}
 	for _, c := range calls {
 		steps := []string{"before", "afterwrite"}
 		if c == "publish2" {
@@ -451,6 +465,7 @@ func C11Matrix() []c11Cell {
 			cells = append(cells, c11Cell{"rc-connect", st, ca})
 		}
 	}
+	cells = append(cells, c11Cell{"rc-disconnect", "after-cancelled-connect", "none"})
 	for _, st := range []string{"connected", "backoff", "dialparked", "connack"} {
 		for _, ca := range []string{"none", "deadline"} {
 			cells = append(cells, c11Cell{"rc-disconnect", st, ca})
@@ -500,6 +515,9 @@ func applyCause(sc *Scenario, cause string, t int64, target int, r *Rng) {
 		sc.Script = append(sc.Script, Out{Conn: 1, AtUs: t - sc.Cfg.LatB2CUs, Kind: "raw", RawHex: raws[r.IntN(len(raws)-1)], Class: "malformed"})
 	case "refused":
 		sc.Faults = append(sc.Faults, Fault{Kind: "connackRefuse", Conn: 1, Code: byte(r.between(1, 5))})
+	case "disconnect":
+		// another goroutine disconnects while the call is blocked
+		sc.Ops = append(sc.Ops, Op{AtUs: t, Actor: 99, Kind: "disconnect", Cli: 0})
 	}
 }
 
@@ -524,6 +542,16 @@ func genC11ReconnCell(r *Rng, cell c11Cell) *Scenario {
 		sc.Faults = append(sc.Faults, Fault{Kind: "dialErr", Conn: 1})
 	case "connected":
 	}
+	if cell.step == "after-cancelled-connect" {
+		// Connect's context is cancelled while the loop is parked between the
+		// successful CONNACK and reporting the first success; a later Disconnect
+		// must still complete
+		cfg.Yields = map[string]int64{"reconn.afterConnect": 500}
+		sc.Ops = append(sc.Ops, Op{AtUs: 400, Actor: -1, Kind: "cancel", Target: 0})
+		sc.Ops = append(sc.Ops, Op{AtUs: 3000, Actor: 1, Kind: "disconnect", Token: "must-return"})
+		sc.HorizonUs, sc.EndUs = 20000, 60000
+		return sc
+	}
 	if cell.call == "rc-connect" {
 		if cell.cause == "cancel" {
 			sc.Ops = append(sc.Ops, Op{AtUs: tc, Actor: -1, Kind: "cancel", Target: 0})
@@ -547,6 +575,9 @@ func genC11ReconnCell(r *Rng, cell c11Cell) *Scenario {
 		op := Op{AtUs: tc, Actor: 1, Kind: "disconnect"}
 		if cell.cause == "deadline" {
 			op.CtxTimeoutUs = 700
+		}
+		if cell.step == "connected" || cell.step == "backoff" {
+			op.Token = "must-return" // phases in which the loop can observe the request
 		}
 		sc.Ops = append(sc.Ops, op)
 	}
@@ -628,7 +659,7 @@ func genC11(r *Rng, prop string) *Scenario {
 	if r.chance(0.3) {
 		sc.Script = append(sc.Script, Out{Conn: 1, AtUs: t + 300, Kind: "release", Held: 0})
 	}
-	causes := []string{"cancel", "deadline", "localclose", "peereof", "peerreset", "malformed"}
+	causes := []string{"cancel", "deadline", "localclose", "peereof", "peerreset", "malformed", "disconnect"}
 	tc := t + r.between(400, 3000)
 	applyCause(sc, causes[r.IntN(len(causes))], tc, 1+r.IntN(n), r)
 	if r.chance(0.4) {
